@@ -3,6 +3,7 @@ import Hgxv.Proofs.C16Match
 import Hgxv.Proofs.C16Output
 import Hgxv.Proofs.C16Sample
 import Hgxv.Proofs.C16Relabel
+import Hgxv.Proofs.C16Ext
 /-! # C16 — Hy-MMSBM sampler: valid hypergraphs, conditioning respected, seed decides the sequence
 
 Theorems about the model `Hgxv/Model/C16.lean`.  Every statement is for **all oracle values**: all picks of
@@ -884,3 +885,308 @@ example : sampleFromHygG ["a", "b", "c", "d", "e"] [["a", "b", "c"], ["c", "d"],
     ⟨[], [⟨0, 1, [1, 3], true⟩], [[⟨2, 1, [0, 4], true⟩], []], [[1, 2, 2], [1, 0, 3]]⟩ =
     some [[(["b", "c", "d"], 1), (["b", "c"], 2), (["a", "e"], 2)], [(["b", "c", "d"], 1), (["b", "c"], 1), (["a", "e"], 3)]] := by
   decide
+
+/-! ## extension round: all four flag pairs of `_match_sequences`, its error path, `sample(deg_seq=...)`,
+`sample(dim_seq=...)`, raising calls inside sessions (`Model/C16Ext.lean`) -/
+
+/-- `matchFull` (the run of `_match_sequences` with its exceptions kept) refines `matchSequences` on the three flag pairs
+the latter models: it returns exactly when and what `matchSequences` returns, and it raises exactly when `matchSequences`
+answers `none` - so every theorem about `matchSequences` / `sampleFromSeqs` is a theorem about the returning runs of
+`matchFull`, and what a raising run leaves on the sampler is additional information. -/
+theorem C16_match_full_refines (degSeq : List Nat) (dimSeq : List (Nat × Nat)) (fd fm : Bool) (picks : List (List Nat))
+    (hp : (fd && !fm) = false) :
+    (∀ st, matchFull degSeq dimSeq fd fm picks = .done st ↔ matchSequences degSeq dimSeq fd fm picks = some st) ∧
+    ((∃ ok, matchFull degSeq dimSeq fd fm picks = .raised ok) ↔ matchSequences degSeq dimSeq fd fm picks = none) := by
+  have h := matchFull_toOption degSeq dimSeq fd fm picks hp
+  cases hr : matchFull degSeq dimSeq fd fm picks with
+  | done st0 =>
+    rw [hr] at h
+    simp only [MRes.toOption] at h
+    rw [← h]
+    exact ⟨fun st => by simp, by simp⟩
+  | raised ok =>
+    rw [hr] at h
+    simp only [MRes.toOption] at h
+    rw [← h]
+    exact ⟨fun st => by simp, by simp⟩
+
+/-- `force_dim_seq` (alone - `sample(dim_seq=m)`, the degree sequence `degSeq` is whatever the inner model drew - or together
+with `force_deg_seq`, or neither flag): whenever `_match_sequences` returns, for every draw list, the hyperedges are sets
+of `>= 2` nodes `< N` and the size sequence is matched EXACTLY - the list of sizes is the requested one in order, every
+size `>= 2` has exactly its count - whether or not the sequences match. -/
+theorem C16_force_dim (degSeq : List Nat) (dimSeq : List (Nat × Nat)) (fd fm : Bool) (picks : List (List Nat))
+    (st : MState) (hp : (fd && !fm) = false) (h : matchFull degSeq dimSeq fd fm picks = .done st) :
+    (∀ e ∈ st.cfg, e.Nodup ∧ 2 ≤ e.length ∧ ∀ x ∈ e, x < degSeq.length) ∧
+    st.cfg.map List.length = sizesOfSeq dimSeq ∧
+    (∀ s, 2 ≤ s → sizeCount s st.cfg = dimCount dimSeq s) := by
+  have hm := ((C16_match_full_refines degSeq dimSeq fd fm picks hp).1 st).mp h
+  obtain ⟨m1, m2, m3, _⟩ := C16_initial_matching degSeq dimSeq fd fm picks st hm
+  exact ⟨m1, m2, m3⟩
+
+/-- `force_deg_seq` alone (`sample(deg_seq=d)`, the size sequence is whatever the inner model drew): whenever
+`_match_sequences` returns, for every draw list and WHATEVER the report says, the hyperedges are sets of `>= 2` nodes `< N`;
+no node is used more often than its degree - hyperedges built plus residual degree never exceed `deg(n)`: the construction
+shrinks hyperedges instead of adding nodes of degree 0 -; at most ONE node keeps residual degree (the exit condition of the
+second phase; with two or more the code as it stands raises `AttributeError`, `phase2`); and a report `True` (sizes `>= 2`)
+means every node is used exactly `deg(n)` times. -/
+theorem C16_force_deg (degSeq : List Nat) (dimSeq : List (Nat × Nat)) (picks : List (List Nat)) (st : MState)
+    (h : matchFull degSeq dimSeq true false picks = .done st) :
+    (∀ e ∈ st.cfg, e.Nodup ∧ 2 ≤ e.length ∧ ∀ x ∈ e, x < degSeq.length) ∧
+    (∀ n (hn : n < degSeq.length), degOf n st.cfg + rd st.resid n ≤ degSeq[n]) ∧
+    (∀ a b, 0 < rd st.resid a → 0 < rd st.resid b → a = b) ∧
+    (st.flag = true → (∀ p ∈ dimSeq, 2 ≤ p.1) → ∀ n (hn : n < degSeq.length), degOf n st.cfg = degSeq[n]) := by
+  obtain ⟨st1, hl, h2⟩ := matchFull_forceDeg degSeq dimSeq picks st h
+  obtain ⟨e1, e2, e3, e4, e5⟩ := phase2_done h2
+  have hb0 : MBasic degSeq.length (matchInit degSeq picks) := ⟨rfl, by simp [matchInit]⟩
+  have hu0 : MUse degSeq (matchInit degSeq picks) := by
+    intro _; simp [matchInit, degOf]
+  have hc0 : MCap degSeq (matchInit degSeq picks) := by
+    intro n; simp [matchInit, degOf]
+  obtain ⟨b1, _, b3⟩ := matchLoop_spec (degSeq := degSeq) hb0 hl
+  have hcap := matchLoop_cap hc0 hl
+  have hcov : MCover st1.keys st1.resid := matchLoop_cover (cover_init degSeq) hl
+  have hrd : ∀ n (hn : n < degSeq.length), rd degSeq n = degSeq[n] := by
+    intro n hn; simp [rd, List.getElem?_eq_getElem hn]
+  refine ⟨?_, ?_, ?_, ?_⟩
+  · rw [e1]; exact b1.edges
+  · intro n hn
+    have := hcap n
+    rw [hrd n hn] at this
+    rw [e1, e2]; exact this
+  · intro a b ha hb
+    rw [e2] at ha hb
+    rw [e2, e3] at e4
+    exact available_le_one hcov e4 ha hb
+  · intro hf hall n hn
+    obtain ⟨f1, f2⟩ := e5 hf
+    obtain ⟨u1, _⟩ := b3 hall hu0 f1
+    have hz : rd st1.resid n = 0 := by
+      unfold rd
+      cases hr : st1.resid[n]? with
+      | none => rfl
+      | some d => simpa using f2 d (hcov n d hr)
+    have := u1 n
+    rw [hrd n hn, hz] at this
+    rw [e1]; omega
+
+/-- The dead second phase of `force_deg_seq` alone, for every input: when the size sequence is exhausted (the loops returned
+`st1`) and two different nodes still have residual degree, `_match_sequences` - hence `sample(deg_seq=d)` - raises
+(`self.model`: `AttributeError`) and leaves `matching_sequences = False`.  Together with `C16_force_deg` (a returning run
+leaves at most one such node): the call returns only if at most one node keeps residual degree.  A defect of the unchanged
+tree outside the property's quantifier (noted, modelled as the code stands). -/
+theorem C16_force_deg_attribute_error (degSeq : List Nat) (dimSeq : List (Nat × Nat)) (picks : List (List Nat))
+    (st1 : MState) (h : matchLoop true false dimSeq (matchInit degSeq picks) = some st1)
+    (a b : Nat) (hne : a ≠ b) (ha : 0 < rd st1.resid a) (hb : 0 < rd st1.resid b) :
+    matchFull degSeq dimSeq true false picks = .raised false ∧
+    flagOfRes (matchFull degSeq dimSeq true false picks) = some false := by
+  have hcov : MCover st1.keys st1.resid := matchLoop_cover (cover_init degSeq) h
+  obtain ⟨g1, g2⟩ := available_ge_two hcov hne ha hb
+  rw [matchFull_of_loop h]
+  unfold phase2
+  simp [g1, g2, flagOfRes]
+
+/-- `sample(deg_seq=d)` (the size sequence `dimSeq` and all draws arbitrary): for **every** `k`, the `k`-th yielded hypergraph is
+well-formed, its nodes are `< N`, its hyperedges have size `>= 2`, and NO NODE EXCEEDS ITS CONDITIONED DEGREE - whatever
+`matching_sequences` reports, for every quantile list; when the report is `True` (sizes `>= 2`) and no two hyperedges of the
+chain state coincide, every node has exactly its conditioned degree. -/
+theorem C16_sample_degonly (degSeq : List Nat) (dimSeq : List (Nat × Nat)) (t : OwnTape) (flag : Bool)
+    (outs : List (List (Hye × Nat))) (h : sampleFromDeg degSeq dimSeq t = some (flag, outs)) :
+    outs.length = t.thins.length ∧ ∀ k (hk : k < outs.length),
+      ValidOut outs[k] ∧
+      (∀ p ∈ outs[k], (∀ x ∈ p.1, x < degSeq.length) ∧ 2 ≤ p.1.length) ∧
+      (∀ n (hn : n < degSeq.length), degOf n (outs[k].map (·.1)) ≤ degSeq[n]) ∧
+      ∃ y q, t.quantiles[k]? = some q ∧ outputStage y (truncWeights q) none = some outs[k] ∧
+        ((y.map canon).Nodup → flag = true → (∀ q ∈ dimSeq, 2 ≤ q.1) →
+          ∀ n (hn : n < degSeq.length), degOf n (outs[k].map (·.1)) = degSeq[n]) := by
+  unfold sampleFromDeg at h
+  cases hm : matchFull degSeq dimSeq true false t.picks with
+  | raised ok => simp [hm] at h
+  | done st =>
+    simp only [hm] at h
+    cases hs : sampleFromConfig st.cfg [] none t with
+    | none => simp [hs] at h
+    | some os =>
+      simp only [hs, Option.map_some, Option.some.injEq, Prod.mk.injEq] at h
+      obtain ⟨hflag, rfl⟩ := h
+      obtain ⟨m1, m2, _, m4⟩ := C16_force_deg degSeq dimSeq t.picks st hm
+      have hn0 : AllNodup st.cfg := fun e he => (m1 e he).1
+      obtain ⟨ys, hy, hlen, hout⟩ := sampleFromConfig_spec hs
+      obtain ⟨c1, c2⟩ := C16_chain_preserves st.cfg [] t.burn t.thins ys hn0 hy
+      refine ⟨by omega, ?_⟩
+      intro k hk
+      have hk' : k < ys.length := by omega
+      obtain ⟨w, hw, ho⟩ := hout k hk' hk
+      obtain ⟨d1, d2, d3, d4⟩ := c2 ys[k] (List.getElem_mem hk')
+      simp only [List.append_nil] at d1 d2 d3
+      have hny : AllNodup ys[k] := d4 (fun e he => by cases he)
+      obtain ⟨v1, v2, v3, v4, v5⟩ := C16_output_valid ys[k] (truncWeights w) none os[k] hny (by simp) ho
+      obtain ⟨b1, _, b3⟩ := C16_output_bounds ys[k] (truncWeights w) os[k] ho
+      refine ⟨⟨v1, fun p hp => ⟨v2 p hp, v3 p hp⟩⟩, ?_, ?_, ys[k], w, hw, ho, ?_⟩
+      · intro p hp
+        refine ⟨?_, ?_⟩
+        · intro x hx
+          obtain ⟨e, he, hxe⟩ := v5 p hp x hx
+          have hpos : 0 < degOf x ys[k] := (degOf_pos_iff x _).mpr ⟨e, he, hxe⟩
+          rw [d1 x] at hpos
+          obtain ⟨e0, he0, hx0⟩ := (degOf_pos_iff x _).mp hpos
+          exact (m1 e0 he0).2.2 x hx0
+        · obtain ⟨e, he, hpe⟩ := v4 p hp
+          have hmem : e.length ∈ st.cfg.map List.length := by
+            rw [← d3]; exact List.mem_map_of_mem he
+          obtain ⟨e0, he0, hl0⟩ := List.mem_map.mp hmem
+          have := (m1 e0 he0).2.1
+          omega
+      · intro n hn
+        have h1 := b1 n
+        rw [d1 n] at h1
+        have h2 := m2 n hn
+        omega
+      · intro hnd hf hall n hn
+        obtain ⟨e1, _⟩ := b3 (truncWeights_pos w) hnd
+        have hf' : st.flag = true := by rw [hflag]; exact hf
+        rw [e1 n, d1 n]
+        exact m4 hf' hall n hn
+
+/-- `sample(dim_seq=m)` (`force_dim_seq` alone; the degree sequence `degSeq` is whatever the inner model drew, all draws
+arbitrary): for **every** `k`, the `k`-th yielded hypergraph is well-formed, its nodes are `< N`, its hyperedges have size
+`>= 2`, no size `>= 2` exceeds its conditioned count - whatever `matching_sequences` reports - and whenever no two hyperedges
+of the chain state coincide every size has EXACTLY its conditioned count. -/
+theorem C16_sample_dimonly (degSeq : List Nat) (dimSeq : List (Nat × Nat)) (t : OwnTape) (flag : Bool)
+    (outs : List (List (Hye × Nat))) (h : sampleFromSeqs degSeq dimSeq false true [] t = some (flag, outs)) :
+    outs.length = t.thins.length ∧ ∀ k (hk : k < outs.length),
+      ValidOut outs[k] ∧
+      (∀ p ∈ outs[k], (∀ x ∈ p.1, x < degSeq.length) ∧ 2 ≤ p.1.length) ∧
+      (∀ s, 2 ≤ s → sizeCount s (outs[k].map (·.1)) ≤ dimCount dimSeq s) ∧
+      ∃ y q, t.quantiles[k]? = some q ∧ outputStage y (truncWeights q) none = some outs[k] ∧
+        ((y.map canon).Nodup → ∀ s, 2 ≤ s → sizeCount s (outs[k].map (·.1)) = dimCount dimSeq s) := by
+  obtain ⟨h1, h2⟩ := C16_sample_seqs degSeq dimSeq false true [] t flag outs (by simp) h
+  refine ⟨h1, fun k hk => ?_⟩
+  obtain ⟨a1, a2, a3⟩ := h2 k hk
+  obtain ⟨b1, _, y, q, hq, ho, b3⟩ := a3 rfl
+  exact ⟨a1, fun p hp => ⟨(a2 p hp).1, (a2 p hp).2.1⟩, b1, y, q, hq, ho, fun hnd => (b3 hnd).1⟩
+
+/-- The error path of `_match_sequences` on the sampler object (after the repair of D48 the attribute is `None` at its
+start): a call that raises inside `_match_sequences` delivers nothing and leaves `matching_sequences = None` or `False` -
+NEVER a stale `True`, for every flag pair and draw list; and `False` exactly when the run had left the sequences
+(`ok = false`) before the exception. -/
+theorem C16_raise_state (degSeq : List Nat) (dimSeq : List (Nat × Nat)) (fd fm : Bool) (fixed : Config) (t : OwnTape)
+    (ok : Bool) (h : matchFull degSeq dimSeq fd fm t.picks = .raised ok) :
+    (seqCallX degSeq dimSeq fd fm fixed t).2 = none ∧
+    (seqCallX degSeq dimSeq fd fm fixed t).1.flag ≠ some true ∧
+    ((seqCallX degSeq dimSeq fd fm fixed t).1.flag = some false ↔ ok = false) := by
+  unfold seqCallX
+  simp only [h, flagOfRes]
+  cases ok <;> simp
+
+/-- What a call of each of the FIVE kinds delivers on a used sampler in any state `s`: `sample(initial_hyg=...)`,
+`sample(deg_seq, dim_seq)`, `sample()` as before; `sample(dim_seq=m)` is `sampleFromSeqs` with `force_dim_seq` alone on
+the degree sequence the inner model drew (so `C16_sample_seqs` applies: size counts respected, exact without duplicates);
+`sample(deg_seq=d)` is `sampleFromDeg` (`C16_sample_degonly`). -/
+theorem C16_callX_result (s : Sampler) (c : CallX) :
+    (callStepX s c).2 =
+      match c.args with
+      | .hyg labels edges => (sampleFromHyg labels edges c.own).map (fun o => ⟨none, o⟩)
+      | .seqs d m => (sampleFromSeqs d m true true [] c.own).map (fun p => ⟨some p.1, p.2⟩)
+      | .model =>
+        (sampleFromSeqs c.inner.degSeq c.inner.dimSeq false false c.inner.dyads c.own).map (fun p => ⟨some p.1, p.2⟩)
+      | .degOnly d => (sampleFromDeg d c.inner.dimSeq c.own).map (fun p => ⟨some p.1, p.2⟩)
+      | .dimOnly m => (sampleFromSeqs c.inner.degSeq m false true [] c.own).map (fun p => ⟨some p.1, p.2⟩) := by
+  unfold callStepX
+  cases c.args with
+  | hyg labels edges => rfl
+  | seqs d m =>
+    simp only
+    rw [(seqCallX_of_old [] c.own s rfl).1, seqCall_snd]
+  | model =>
+    simp only
+    rw [(seqCallX_of_old c.inner.dyads c.own s rfl).1, seqCall_snd]
+  | dimOnly m =>
+    simp only
+    rw [(seqCallX_of_old [] c.own s rfl).1, seqCall_snd]
+  | degOnly d =>
+    simp only
+    unfold seqCallX sampleFromDeg
+    cases matchFull d c.inner.dimSeq true false c.own.picks with
+    | raised ok => simp
+    | done st => simp only [Option.map_map]; rfl
+
+/-- Several calls of all five kinds on ONE sampler, RAISING CALLS INCLUDED (an exception inside `_match_sequences`, in the
+chain, in the output stage): the `k`-th call delivers exactly what the same call delivers on a sampler that has just been
+built; and the attribute after a call through `_sampling_from_sequences` is a function of that call alone (two samplers in
+arbitrary states end in the same state), while `sample(initial_hyg=...)` leaves it alone - nothing leaks between calls. -/
+theorem C16_sessionX_local (s s' : Sampler) (cs : List CallX) (c : CallX) :
+    (runSessionX s cs).map (·.1) = cs.map freshCallX ∧
+    (callStepX s c).2 = (callStepX s' c).2 ∧
+    ((∀ l e, c.args ≠ .hyg l e) → (callStepX s c).1 = (callStepX s' c).1) ∧
+    (∀ l e, c.args = .hyg l e → (callStepX s c).1 = s) := by
+  refine ⟨runSessionX_outs s cs, callStepX_snd_local s s' c, ?_, ?_⟩
+  · intro hne
+    unfold callStepX
+    cases hc : c.args with
+    | hyg l e => exact absurd hc (hne l e)
+    | seqs d m => rfl
+    | model => rfl
+    | degOnly d => rfl
+    | dimOnly m => rfl
+  · intro l e hc
+    unfold callStepX
+    rw [hc]
+
+/-- The five-kind session model extends the three-kind one of the second strengthening round: on `sample(initial_hyg)`,
+`sample(deg_seq, dim_seq)`, `sample()` it delivers the same, and leaves the same attribute whenever the call returns
+(the old model did not say what a raising call leaves). -/
+theorem C16_callX_extends (s : Sampler) (c : Call) :
+    (callStepX s c.toX).2 = (callStep true s c).2 ∧
+    ((callStep true s c).2 ≠ none → (callStepX s c.toX).1 = (callStep true s c).1) := by
+  unfold callStepX callStep Call.toX
+  cases hc : c.args with
+  | hyg l e => simp [CallArgs.toX]
+  | seqs d m => simpa [CallArgs.toX] using seqCallX_of_old [] c.own s rfl
+  | model => simpa [CallArgs.toX] using seqCallX_of_old c.inner.dyads c.own s rfl
+
+/-! ### non-vacuity of the extension round (kernel-evaluated) -/
+
+-- C16_force_deg: force_deg_seq alone, degrees 2,1,1, two hyperedges of size 2 requested: both built, nobody above its degree,
+-- nothing left; the report is False all the same (the stale keys 2 and 1 are "degrees != 0" for the second phase)
+example : (match matchFull [2, 1, 1] [(2, 2)] true false [[0], [1], [], [0, 2]] with
+    | .done st => some (st.cfg, st.flag, st.keys, st.resid) | .raised _ => none) =
+    some ([[0, 1], [0, 2]], false, [2, 1, 0], [0, 0, 0]) := by decide
+-- a hyperedge shrinks (size 3 requested, two nodes with degree left), one node keeps residual degree: returned
+example : (match matchFull [3, 1, 0] [(2, 1), (3, 1)] true false [[0], [1], [], [0], []] with
+    | .done st => some (st.cfg, st.flag, st.resid) | .raised _ => none) = some ([[0, 1]], false, [2, 0, 0]) := by decide
+-- two nodes keep residual degree: the second phase enters its loop, `self.model` -> AttributeError, the attribute is False
+example : (match matchFull [2, 2, 2] [(2, 1)] true false [[0, 1]] with
+    | .done _ => none | .raised ok => some ok) = some false := by decide
+-- C16_force_deg_attribute_error: the loops return with the nodes 1 and 2 holding residual degree
+example : (matchLoop true false [(2, 1)] (matchInit [2, 2, 2] [[0, 1]])).map (fun st => st.resid) = some [1, 1, 2] := by decide
+-- all degrees 0: `set.union()` of nothing (TypeError) after the report was set to False
+example : (match matchFull [0, 0] [(2, 1)] true false [] with | .done _ => none | .raised ok => some ok) = some false := by decide
+-- a size < 1 before anything ran out: ValueError, the attribute stays None; after an exhausted extraction: False
+example : (match matchFull [1, 1] [(0, 1)] true true [] with | .done _ => none | .raised ok => some ok) = some true := by decide
+example : (match matchFull [1, 0, 0] [(3, 1), (0, 1)] true true [[0], [1, 2]] with
+    | .done _ => none | .raised ok => some ok) = some false := by decide
+-- C16_force_dim with force_dim_seq alone: degrees 1,0,0 drawn by the inner model, one hyperedge of size 3 requested and built
+example : (match matchFull [1, 0, 0] [(3, 1)] false true [[0], [1, 2]] with
+    | .done st => some (st.cfg, st.flag) | .raised _ => none) = some ([[0, 1, 2]], false) := by decide
+-- C16_sample_dimonly: the inner model drew the degrees 1,0,0; sizes 3 and 2 requested, both delivered
+example : sampleFromSeqs [1, 0, 0] [(3, 1), (2, 1)] false true [] ⟨[[0], [1, 2], [], [0, 1]], [], [[]], [[2, 2]]⟩ =
+    some (false, [[([0, 1, 2], 2), ([0, 1], 2)]]) := by decide
+-- C16_sample_degonly
+example : sampleFromDeg [2, 1, 1] [(2, 2)] ⟨[[0], [1], [], [0, 2]], [], [[], [⟨0, 1, [2], true⟩]], [[3, 0], [1, 1]]⟩ =
+    some (false, [[([0, 1], 3), ([0, 2], 1)], [([0, 2], 1), ([0, 1], 1)]]) := by decide
+-- C16_sessionX_local / C16_raise_state / C16_callX_result: ONE sampler started with a stale report, six calls: a sequence call
+-- that raises after leaving the sequences (attribute False), sample(deg_seq) that returns, a call that raises at once
+-- (attribute None), sample(dim_seq), sample(deg_seq) that runs into `self.model` (attribute False), matching sequences (True)
+example : runSessionX ⟨some true⟩
+    [⟨.seqs [1, 0, 0] [(3, 1), (0, 1)], ⟨[[0], [1, 2]], [], [[]], [[1]]⟩, ⟨[], [], []⟩⟩,
+     ⟨.degOnly [2, 1, 1], ⟨[[0], [1], [], [0, 2]], [], [[]], [[3, 0]]⟩, ⟨[], [(2, 2)], []⟩⟩,
+     ⟨.seqs [1, 1] [(0, 1)], ⟨[], [], [[]], [[1]]⟩, ⟨[], [], []⟩⟩,
+     ⟨.dimOnly [(3, 1), (2, 1)], ⟨[[0], [1, 2], [], [0, 1]], [], [[]], [[2, 2]]⟩, ⟨[1, 0, 0], [], []⟩⟩,
+     ⟨.degOnly [2, 2, 2], ⟨[[0, 1]], [], [[]], [[1]]⟩, ⟨[], [(2, 1)], []⟩⟩,
+     ⟨.seqs [2, 2, 1, 1] [(3, 2)], ⟨[[0, 1], [3], [], [2, 0, 1]], [], [[]], [[1, 2]]⟩, ⟨[], [], []⟩⟩] =
+    [(none, some false),
+     (some ⟨some false, [[([0, 1], 3), ([0, 2], 1)]]⟩, some false),
+     (none, none),
+     (some ⟨some false, [[([0, 1, 2], 2), ([0, 1], 2)]]⟩, some false),
+     (none, some false),
+     (some ⟨some true, [[([0, 1, 3], 1), ([0, 1, 2], 2)]]⟩, some true)] := by decide
